@@ -3507,7 +3507,7 @@ Ops!(
     b"vdyoib"     , [0x03, 0x17        ], X, VEX_OP | ENC_MR | PREF_66, AVX;
 ]
 "vfmadd123pd" = [
-    b"y*y*w*"     , [0x02, 0xA8        ], X, VEX_OP | AUTO_VEXL | PREF_66, FMA;
+    b"y*y*w*"     , [0x02, 0xA8        ], X, VEX_OP | AUTO_VEXL | WITH_REXW | PREF_66, FMA;
 ]
 "vfmadd123ps" = [
     b"y*y*w*"     , [0x02, 0xA8        ], X, VEX_OP | AUTO_VEXL | PREF_66, FMA;
@@ -3521,7 +3521,7 @@ Ops!(
     b"yoyoyo"     , [0x02, 0xA9        ], X, VEX_OP | PREF_66, FMA;
 ]
 "vfmadd132pd" = [
-    b"y*y*w*"     , [0x02, 0x98        ], X, VEX_OP | AUTO_VEXL | PREF_66, FMA;
+    b"y*y*w*"     , [0x02, 0x98        ], X, VEX_OP | AUTO_VEXL | WITH_REXW | PREF_66, FMA;
 ]
 "vfmadd132ps" = [
     b"y*y*w*"     , [0x02, 0x98        ], X, VEX_OP | AUTO_VEXL | PREF_66, FMA;
@@ -3535,7 +3535,7 @@ Ops!(
     b"yoyoyo"     , [0x02, 0x99        ], X, VEX_OP | PREF_66, FMA;
 ]
 "vfmadd213pd" = [
-    b"y*y*w*"     , [0x02, 0xA8        ], X, VEX_OP | AUTO_VEXL | PREF_66, FMA;
+    b"y*y*w*"     , [0x02, 0xA8        ], X, VEX_OP | AUTO_VEXL | WITH_REXW | PREF_66, FMA;
 ]
 "vfmadd213ps" = [
     b"y*y*w*"     , [0x02, 0xA8        ], X, VEX_OP | AUTO_VEXL | PREF_66, FMA;
@@ -3549,7 +3549,7 @@ Ops!(
     b"yoyoyo"     , [0x02, 0xA9        ], X, VEX_OP | PREF_66, FMA;
 ]
 "vfmadd231pd" = [
-    b"y*y*w*"     , [0x02, 0xB8        ], X, VEX_OP | AUTO_VEXL | PREF_66, FMA;
+    b"y*y*w*"     , [0x02, 0xB8        ], X, VEX_OP | AUTO_VEXL | WITH_REXW | PREF_66, FMA;
 ]
 "vfmadd231ps" = [
     b"y*y*w*"     , [0x02, 0xB8        ], X, VEX_OP | AUTO_VEXL | PREF_66, FMA;
@@ -3563,7 +3563,7 @@ Ops!(
     b"yoyoyo"     , [0x02, 0xB9        ], X, VEX_OP | PREF_66, FMA;
 ]
 "vfmadd312pd" = [
-    b"y*y*w*"     , [0x02, 0x98        ], X, VEX_OP | AUTO_VEXL | PREF_66, FMA;
+    b"y*y*w*"     , [0x02, 0x98        ], X, VEX_OP | AUTO_VEXL | WITH_REXW | PREF_66, FMA;
 ]
 "vfmadd312ps" = [
     b"y*y*w*"     , [0x02, 0x98        ], X, VEX_OP | AUTO_VEXL | PREF_66, FMA;
@@ -3577,7 +3577,7 @@ Ops!(
     b"yoyoyo"     , [0x02, 0x99        ], X, VEX_OP | PREF_66, FMA;
 ]
 "vfmadd321pd" = [
-    b"y*y*w*"     , [0x02, 0xB8        ], X, VEX_OP | AUTO_VEXL | PREF_66, FMA;
+    b"y*y*w*"     , [0x02, 0xB8        ], X, VEX_OP | AUTO_VEXL | WITH_REXW | PREF_66, FMA;
 ]
 "vfmadd321ps" = [
     b"y*y*w*"     , [0x02, 0xB8        ], X, VEX_OP | AUTO_VEXL | PREF_66, FMA;
@@ -3609,37 +3609,37 @@ Ops!(
     b"yoyoyoyo"   , [0x03, 0x6A        ], X, VEX_OP | WITH_REXW | PREF_66, SSE5 | AMD;
 ]
 "vfmaddsub123pd" = [
-    b"y*y*w*"     , [0x02, 0xA6        ], X, VEX_OP | AUTO_VEXL | PREF_66, FMA;
+    b"y*y*w*"     , [0x02, 0xA6        ], X, VEX_OP | AUTO_VEXL | WITH_REXW | PREF_66, FMA;
 ]
 "vfmaddsub123ps" = [
     b"y*y*w*"     , [0x02, 0xA6        ], X, VEX_OP | AUTO_VEXL | PREF_66, FMA;
 ]
 "vfmaddsub132pd" = [
-    b"y*y*w*"     , [0x02, 0x96        ], X, VEX_OP | AUTO_VEXL | PREF_66, FMA;
+    b"y*y*w*"     , [0x02, 0x96        ], X, VEX_OP | AUTO_VEXL | WITH_REXW | PREF_66, FMA;
 ]
 "vfmaddsub132ps" = [
     b"y*y*w*"     , [0x02, 0x96        ], X, VEX_OP | AUTO_VEXL | PREF_66, FMA;
 ]
 "vfmaddsub213pd" = [
-    b"y*y*w*"     , [0x02, 0xA6        ], X, VEX_OP | AUTO_VEXL | PREF_66, FMA;
+    b"y*y*w*"     , [0x02, 0xA6        ], X, VEX_OP | AUTO_VEXL | WITH_REXW | PREF_66, FMA;
 ]
 "vfmaddsub213ps" = [
     b"y*y*w*"     , [0x02, 0xA6        ], X, VEX_OP | AUTO_VEXL | PREF_66, FMA;
 ]
 "vfmaddsub231pd" = [
-    b"y*y*w*"     , [0x02, 0xB6        ], X, VEX_OP | AUTO_VEXL | PREF_66, FMA;
+    b"y*y*w*"     , [0x02, 0xB6        ], X, VEX_OP | AUTO_VEXL | WITH_REXW | PREF_66, FMA;
 ]
 "vfmaddsub231ps" = [
     b"y*y*w*"     , [0x02, 0xB6        ], X, VEX_OP | AUTO_VEXL | PREF_66, FMA;
 ]
 "vfmaddsub312pd" = [
-    b"y*y*w*"     , [0x02, 0x96        ], X, VEX_OP | AUTO_VEXL | PREF_66, FMA;
+    b"y*y*w*"     , [0x02, 0x96        ], X, VEX_OP | AUTO_VEXL | WITH_REXW | PREF_66, FMA;
 ]
 "vfmaddsub312ps" = [
     b"y*y*w*"     , [0x02, 0x96        ], X, VEX_OP | AUTO_VEXL | PREF_66, FMA;
 ]
 "vfmaddsub321pd" = [
-    b"y*y*w*"     , [0x02, 0xB6        ], X, VEX_OP | AUTO_VEXL | PREF_66, FMA;
+    b"y*y*w*"     , [0x02, 0xB6        ], X, VEX_OP | AUTO_VEXL | WITH_REXW | PREF_66, FMA;
 ]
 "vfmaddsub321ps" = [
     b"y*y*w*"     , [0x02, 0xB6        ], X, VEX_OP | AUTO_VEXL | PREF_66, FMA;
@@ -3653,7 +3653,7 @@ Ops!(
     b"y*y*w*y*"   , [0x03, 0x5C        ], X, VEX_OP | AUTO_VEXL | PREF_66, SSE5 | AMD;
 ]
 "vfmsub123pd" = [
-    b"y*y*w*"     , [0x02, 0xAA        ], X, VEX_OP | AUTO_VEXL | PREF_66, FMA;
+    b"y*y*w*"     , [0x02, 0xAA        ], X, VEX_OP | AUTO_VEXL | WITH_REXW | PREF_66, FMA;
 ]
 "vfmsub123ps" = [
     b"y*y*w*"     , [0x02, 0xAA        ], X, VEX_OP | AUTO_VEXL | PREF_66, FMA;
@@ -3667,7 +3667,7 @@ Ops!(
     b"yoyoyo"     , [0x02, 0xAB        ], X, VEX_OP | PREF_66, FMA;
 ]
 "vfmsub132pd" = [
-    b"y*y*w*"     , [0x02, 0x9A        ], X, VEX_OP | AUTO_VEXL | PREF_66, FMA;
+    b"y*y*w*"     , [0x02, 0x9A        ], X, VEX_OP | AUTO_VEXL | WITH_REXW | PREF_66, FMA;
 ]
 "vfmsub132ps" = [
     b"y*y*w*"     , [0x02, 0x9A        ], X, VEX_OP | AUTO_VEXL | PREF_66, FMA;
@@ -3681,7 +3681,7 @@ Ops!(
     b"yoyoyo"     , [0x02, 0x9B        ], X, VEX_OP | PREF_66, FMA;
 ]
 "vfmsub213pd" = [
-    b"y*y*w*"     , [0x02, 0xAA        ], X, VEX_OP | AUTO_VEXL | PREF_66, FMA;
+    b"y*y*w*"     , [0x02, 0xAA        ], X, VEX_OP | AUTO_VEXL | WITH_REXW | PREF_66, FMA;
 ]
 "vfmsub213ps" = [
     b"y*y*w*"     , [0x02, 0xAA        ], X, VEX_OP | AUTO_VEXL | PREF_66, FMA;
@@ -3695,7 +3695,7 @@ Ops!(
     b"yoyoyo"     , [0x02, 0xAB        ], X, VEX_OP | PREF_66, FMA;
 ]
 "vfmsub231pd" = [
-    b"y*y*w*"     , [0x02, 0xBA        ], X, VEX_OP | AUTO_VEXL | PREF_66, FMA;
+    b"y*y*w*"     , [0x02, 0xBA        ], X, VEX_OP | AUTO_VEXL | WITH_REXW | PREF_66, FMA;
 ]
 "vfmsub231ps" = [
     b"y*y*w*"     , [0x02, 0xBA        ], X, VEX_OP | AUTO_VEXL | PREF_66, FMA;
@@ -3709,7 +3709,7 @@ Ops!(
     b"yoyoyo"     , [0x02, 0xBB        ], X, VEX_OP | PREF_66, FMA;
 ]
 "vfmsub312pd" = [
-    b"y*y*w*"     , [0x02, 0x9A        ], X, VEX_OP | AUTO_VEXL | PREF_66, FMA;
+    b"y*y*w*"     , [0x02, 0x9A        ], X, VEX_OP | AUTO_VEXL | WITH_REXW | PREF_66, FMA;
 ]
 "vfmsub312ps" = [
     b"y*y*w*"     , [0x02, 0x9A        ], X, VEX_OP | AUTO_VEXL | PREF_66, FMA;
@@ -3723,7 +3723,7 @@ Ops!(
     b"yoyoyo"     , [0x02, 0x9B        ], X, VEX_OP | PREF_66, FMA;
 ]
 "vfmsub321pd" = [
-    b"y*y*w*"     , [0x02, 0xBA        ], X, VEX_OP | AUTO_VEXL | PREF_66, FMA;
+    b"y*y*w*"     , [0x02, 0xBA        ], X, VEX_OP | AUTO_VEXL | WITH_REXW | PREF_66, FMA;
 ]
 "vfmsub321ps" = [
     b"y*y*w*"     , [0x02, 0xBA        ], X, VEX_OP | AUTO_VEXL | PREF_66, FMA;
@@ -3737,37 +3737,37 @@ Ops!(
     b"yoyoyo"     , [0x02, 0xBB        ], X, VEX_OP | PREF_66, FMA;
 ]
 "vfmsubadd123pd" = [
-    b"y*y*w*"     , [0x02, 0xA7        ], X, VEX_OP | AUTO_VEXL | PREF_66, FMA;
+    b"y*y*w*"     , [0x02, 0xA7        ], X, VEX_OP | AUTO_VEXL | WITH_REXW | PREF_66, FMA;
 ]
 "vfmsubadd123ps" = [
     b"y*y*w*"     , [0x02, 0xA7        ], X, VEX_OP | AUTO_VEXL | PREF_66, FMA;
 ]
 "vfmsubadd132pd" = [
-    b"y*y*w*"     , [0x02, 0x97        ], X, VEX_OP | AUTO_VEXL | PREF_66, FMA;
+    b"y*y*w*"     , [0x02, 0x97        ], X, VEX_OP | AUTO_VEXL | WITH_REXW | PREF_66, FMA;
 ]
 "vfmsubadd132ps" = [
     b"y*y*w*"     , [0x02, 0x97        ], X, VEX_OP | AUTO_VEXL | PREF_66, FMA;
 ]
 "vfmsubadd213pd" = [
-    b"y*y*w*"     , [0x02, 0xA7        ], X, VEX_OP | AUTO_VEXL | PREF_66, FMA;
+    b"y*y*w*"     , [0x02, 0xA7        ], X, VEX_OP | AUTO_VEXL | WITH_REXW | PREF_66, FMA;
 ]
 "vfmsubadd213ps" = [
     b"y*y*w*"     , [0x02, 0xA7        ], X, VEX_OP | AUTO_VEXL | PREF_66, FMA;
 ]
 "vfmsubadd231pd" = [
-    b"y*y*w*"     , [0x02, 0xB7        ], X, VEX_OP | AUTO_VEXL | PREF_66, FMA;
+    b"y*y*w*"     , [0x02, 0xB7        ], X, VEX_OP | AUTO_VEXL | WITH_REXW | PREF_66, FMA;
 ]
 "vfmsubadd231ps" = [
     b"y*y*w*"     , [0x02, 0xB7        ], X, VEX_OP | AUTO_VEXL | PREF_66, FMA;
 ]
 "vfmsubadd312pd" = [
-    b"y*y*w*"     , [0x02, 0x97        ], X, VEX_OP | AUTO_VEXL | PREF_66, FMA;
+    b"y*y*w*"     , [0x02, 0x97        ], X, VEX_OP | AUTO_VEXL | WITH_REXW | PREF_66, FMA;
 ]
 "vfmsubadd312ps" = [
     b"y*y*w*"     , [0x02, 0x97        ], X, VEX_OP | AUTO_VEXL | PREF_66, FMA;
 ]
 "vfmsubadd321pd" = [
-    b"y*y*w*"     , [0x02, 0xB7        ], X, VEX_OP | AUTO_VEXL | PREF_66, FMA;
+    b"y*y*w*"     , [0x02, 0xB7        ], X, VEX_OP | AUTO_VEXL | WITH_REXW | PREF_66, FMA;
 ]
 "vfmsubadd321ps" = [
     b"y*y*w*"     , [0x02, 0xB7        ], X, VEX_OP | AUTO_VEXL | PREF_66, FMA;
@@ -3799,7 +3799,7 @@ Ops!(
     b"yoyoyoyo"   , [0x03, 0x6E        ], X, VEX_OP | WITH_REXW | PREF_66, AMD | SSE5;
 ]
 "vfnmadd123pd" = [
-    b"y*y*w*"     , [0x02, 0xAC        ], X, VEX_OP | AUTO_VEXL | PREF_66, FMA;
+    b"y*y*w*"     , [0x02, 0xAC        ], X, VEX_OP | AUTO_VEXL | WITH_REXW | PREF_66, FMA;
 ]
 "vfnmadd123ps" = [
     b"y*y*w*"     , [0x02, 0xAC        ], X, VEX_OP | AUTO_VEXL | PREF_66, FMA;
@@ -3813,7 +3813,7 @@ Ops!(
     b"yoyoyo"     , [0x02, 0xAD        ], X, VEX_OP | PREF_66, FMA;
 ]
 "vfnmadd132pd" = [
-    b"y*y*w*"     , [0x02, 0x9C        ], X, VEX_OP | AUTO_VEXL | PREF_66, FMA;
+    b"y*y*w*"     , [0x02, 0x9C        ], X, VEX_OP | AUTO_VEXL | WITH_REXW | PREF_66, FMA;
 ]
 "vfnmadd132ps" = [
     b"y*y*w*"     , [0x02, 0x9C        ], X, VEX_OP | AUTO_VEXL | PREF_66, FMA;
@@ -3827,7 +3827,7 @@ Ops!(
     b"yoyoyo"     , [0x02, 0x9D        ], X, VEX_OP | PREF_66, FMA;
 ]
 "vfnmadd213pd" = [
-    b"y*y*w*"     , [0x02, 0xAC        ], X, VEX_OP | AUTO_VEXL | PREF_66, FMA;
+    b"y*y*w*"     , [0x02, 0xAC        ], X, VEX_OP | AUTO_VEXL | WITH_REXW | PREF_66, FMA;
 ]
 "vfnmadd213ps" = [
     b"y*y*w*"     , [0x02, 0xAC        ], X, VEX_OP | AUTO_VEXL | PREF_66, FMA;
@@ -3841,7 +3841,7 @@ Ops!(
     b"yoyoyo"     , [0x02, 0xAD        ], X, VEX_OP | PREF_66, FMA;
 ]
 "vfnmadd231pd" = [
-    b"y*y*w*"     , [0x02, 0xBC        ], X, VEX_OP | AUTO_VEXL | PREF_66, FMA;
+    b"y*y*w*"     , [0x02, 0xBC        ], X, VEX_OP | AUTO_VEXL | WITH_REXW | PREF_66, FMA;
 ]
 "vfnmadd231ps" = [
     b"y*y*w*"     , [0x02, 0xBC        ], X, VEX_OP | AUTO_VEXL | PREF_66, FMA;
@@ -3855,7 +3855,7 @@ Ops!(
     b"yoyoyo"     , [0x02, 0xBD        ], X, VEX_OP | PREF_66, FMA;
 ]
 "vfnmadd312pd" = [
-    b"y*y*w*"     , [0x02, 0x9C        ], X, VEX_OP | AUTO_VEXL | PREF_66, FMA;
+    b"y*y*w*"     , [0x02, 0x9C        ], X, VEX_OP | AUTO_VEXL | WITH_REXW | PREF_66, FMA;
 ]
 "vfnmadd312ps" = [
     b"y*y*w*"     , [0x02, 0x9C        ], X, VEX_OP | AUTO_VEXL | PREF_66, FMA;
@@ -3869,7 +3869,7 @@ Ops!(
     b"yoyoyo"     , [0x02, 0x9D        ], X, VEX_OP | PREF_66, FMA;
 ]
 "vfnmadd321pd" = [
-    b"y*y*w*"     , [0x02, 0xBC        ], X, VEX_OP | AUTO_VEXL | PREF_66, FMA;
+    b"y*y*w*"     , [0x02, 0xBC        ], X, VEX_OP | AUTO_VEXL | WITH_REXW | PREF_66, FMA;
 ]
 "vfnmadd321ps" = [
     b"y*y*w*"     , [0x02, 0xBC        ], X, VEX_OP | AUTO_VEXL | PREF_66, FMA;
@@ -3901,7 +3901,7 @@ Ops!(
     b"yoyoyoyo"   , [0x03, 0x7A        ], X, VEX_OP | WITH_REXW | PREF_66, AMD | SSE5;
 ]
 "vfnmsub123pd" = [
-    b"y*y*w*"     , [0x02, 0xAE        ], X, VEX_OP | AUTO_VEXL | PREF_66, FMA;
+    b"y*y*w*"     , [0x02, 0xAE        ], X, VEX_OP | AUTO_VEXL | WITH_REXW | PREF_66, FMA;
 ]
 "vfnmsub123ps" = [
     b"y*y*w*"     , [0x02, 0xAE        ], X, VEX_OP | AUTO_VEXL | PREF_66, FMA;
@@ -3915,7 +3915,7 @@ Ops!(
     b"yoyoyo"     , [0x02, 0xAF        ], X, VEX_OP | PREF_66, FMA;
 ]
 "vfnmsub132pd" = [
-    b"y*y*w*"     , [0x02, 0x9E        ], X, VEX_OP | AUTO_VEXL | PREF_66, FMA;
+    b"y*y*w*"     , [0x02, 0x9E        ], X, VEX_OP | AUTO_VEXL | WITH_REXW | PREF_66, FMA;
 ]
 "vfnmsub132ps" = [
     b"y*y*w*"     , [0x02, 0x9E        ], X, VEX_OP | AUTO_VEXL | PREF_66, FMA;
@@ -3929,7 +3929,7 @@ Ops!(
     b"yoyoyo"     , [0x02, 0x9F        ], X, VEX_OP | PREF_66, FMA;
 ]
 "vfnmsub213pd" = [
-    b"y*y*w*"     , [0x02, 0xAE        ], X, VEX_OP | AUTO_VEXL | PREF_66, FMA;
+    b"y*y*w*"     , [0x02, 0xAE        ], X, VEX_OP | AUTO_VEXL | WITH_REXW | PREF_66, FMA;
 ]
 "vfnmsub213ps" = [
     b"y*y*w*"     , [0x02, 0xAE        ], X, VEX_OP | AUTO_VEXL | PREF_66, FMA;
@@ -3943,7 +3943,7 @@ Ops!(
     b"yoyoyo"     , [0x02, 0xAF        ], X, VEX_OP | PREF_66, FMA;
 ]
 "vfnmsub231pd" = [
-    b"y*y*w*"     , [0x02, 0xBE        ], X, VEX_OP | AUTO_VEXL | PREF_66, FMA;
+    b"y*y*w*"     , [0x02, 0xBE        ], X, VEX_OP | AUTO_VEXL | WITH_REXW | PREF_66, FMA;
 ]
 "vfnmsub231ps" = [
     b"y*y*w*"     , [0x02, 0xBE        ], X, VEX_OP | AUTO_VEXL | PREF_66, FMA;
@@ -3957,7 +3957,7 @@ Ops!(
     b"yoyoyo"     , [0x02, 0xBF        ], X, VEX_OP | PREF_66, FMA;
 ]
 "vfnmsub312pd" = [
-    b"y*y*w*"     , [0x02, 0x9E        ], X, VEX_OP | AUTO_VEXL | PREF_66, FMA;
+    b"y*y*w*"     , [0x02, 0x9E        ], X, VEX_OP | AUTO_VEXL | WITH_REXW | PREF_66, FMA;
 ]
 "vfnmsub312ps" = [
     b"y*y*w*"     , [0x02, 0x9E        ], X, VEX_OP | AUTO_VEXL | PREF_66, FMA;
@@ -3971,7 +3971,7 @@ Ops!(
     b"yoyoyo"     , [0x02, 0x9F        ], X, VEX_OP | PREF_66, FMA;
 ]
 "vfnmsub321pd" = [
-    b"y*y*w*"     , [0x02, 0xBE        ], X, VEX_OP | AUTO_VEXL | PREF_66, FMA;
+    b"y*y*w*"     , [0x02, 0xBE        ], X, VEX_OP | AUTO_VEXL | WITH_REXW | PREF_66, FMA;
 ]
 "vfnmsub321ps" = [
     b"y*y*w*"     , [0x02, 0xBE        ], X, VEX_OP | AUTO_VEXL | PREF_66, FMA;
